@@ -6,8 +6,8 @@ import Pyrtma.Proofs.ManagerSimDrv
 # C07 — a departed client leaves no trace
 
 For every history (the refinement link, `Proofs/ManagerSim*.lean`, `Proofs/ManagerSpecDep.lean`):
-`spec_departure_clauses_pass_on_model` — run the model on any well-formed history in which a round that accepts a new
-connection delivers no frame (`AccAlone`), give the history-based Spec (`Spec.runSpec`) the events the model itself
+`spec_departure_clauses_pass_on_model` — run the model on any well-formed history (`AccAlone`: log lines of level INFO are
+not forwarded — `log_level` above INFO —, or no round both accepts a new connection and delivers a frame), give the history-based Spec (`Spec.runSpec`) the events the model itself
 wrote, round by round: the Spec's verdict contains **no C07 entry**.  Every C07 clause of the Spec is covered: the
 clauses of `checkDepartures` in each stretch of events (a connection that had to be dropped is closed; every close has
 a reason — it left, or a write to it failed; a failed write is followed by the close; nothing is closed twice; a
@@ -225,11 +225,12 @@ theorem nothing_written_after_failure (cfg : Cfg) (ok : CfgOK cfg) (hfuel : cfg.
 /-- **The Spec's departure clauses hold on every run of the model** (and with them the whole of property C07 as the Spec
 decides it on a run that does not crash — `model_never_crashes`).  For every configuration meeting the side conditions
 (`CfgOK`, automatic fuel, `OrdPerm`, and CLIENT_CLOSED is not the ALL_MESSAGE_TYPES sentinel: `default_side_conditions`)
-and every history whose frames are read from connections (`RoundsWF`) and in which a round that accepts a new connection
-delivers no frame (`AccAlone`), the verdict `Spec.runSpec` computes from the history and the model's own events has no
+and every history whose frames are read from connections (`RoundsWF`) and — unless log lines of level INFO are not
+forwarded at all, `cfg.logLevel > 20` — in which a round that accepts a new connection delivers no frame (`AccAlone`), the
+verdict `Spec.runSpec` computes from the history and the model's own events has no
 C07 entry. -/
 theorem spec_departure_clauses_pass_on_model (cfg : Cfg) (ok : CfgOK cfg) (hfuel : cfg.fuel = 0) (hperm : OrdPerm cfg)
-    (hmt : cfg.mtClosed ≠ cfg.allTypes) (rs : List Round) (hwf : RoundsWF rs) (hacc : AccAlone rs) :
+    (hmt : cfg.mtClosed ≠ cfg.allTypes) (rs : List Round) (hwf : RoundsWF rs) (hacc : AccAlone cfg rs) :
     (Spec.runSpec cfg rs (Pyrtma.Drv.Manager.modelRun cfg rs).1 none).errs.filter (·.1 == "C07") = [] :=
   spec_passes_on_model ok hfuel hperm hmt rs hwf "C07" (by simp [proven]) (fun _ => hacc)
 
@@ -242,12 +243,12 @@ def exRounds2 : List Round :=
 example : nTo (run {} exRounds2).out 2 1 = 1 ∧ nTo (run {} exRounds2).out 2 2 = 0 := by decide
 
 /-- that history meets the hypotheses of `spec_departure_clauses_pass_on_model`, and the Spec has nothing to object to -/
-example : RoundsWF exRounds2 ∧ AccAlone exRounds2 := by
-  constructor
+example : RoundsWF exRounds2 ∧ AccAlone { logLevel := 10 } exRounds2 := by
+  refine ⟨?_, ?_⟩
   · intro r hr rd hrd
     simp only [exRounds2, List.mem_cons, List.not_mem_nil, or_false] at hr
     rcases hr with rfl | rfl | rfl | rfl <;> simp at hrd <;> subst hrd <;> decide
-  · intro r hr
+  · intro _ r hr
     simp only [exRounds2, List.mem_cons, List.not_mem_nil, or_false] at hr
     rcases hr with rfl | rfl | rfl | rfl <;> decide
 example : (Spec.runSpec {} exRounds2 (Pyrtma.Drv.Manager.modelRun {} exRounds2).1 none).errs = [] := by decide +kernel
@@ -278,6 +279,9 @@ def exStale : List Round :=
      writable := [1, 2, 3, 4] }]
 example : (Spec.runSpec { logLevel := 20 } exStale (Pyrtma.Drv.Manager.modelRun { logLevel := 20 } exStale).1 none).errs =
     [("C07", "observer 2 did not get exactly one CLIENT_CLOSED about 1")] := by decide +kernel
+/-- with the default log level (nothing below CRITICAL+ is forwarded) the hypothesis holds for any history, this one included -/
+example : AccAlone {} exStale := fun h => absurd h (by decide)
+example : (Spec.runSpec {} exStale (Pyrtma.Drv.Manager.modelRun {} exStale).1 none).errs = [] := by decide +kernel
 
 /-- a history in which connection 1 is accepted, resets while its header is read, and connection 2 lives on -/
 def exRounds : List Round :=
